@@ -1,11 +1,14 @@
 """C07 - bracketing root finders return a root inside the bracket and terminate.
-E1: lattice designs of bisection (MC_Bisection, IEEE signed zeros) and of ITP (MC_Itp: any trial point the projection
-    step admits) are model-checked against the contract: abscissae inside, sign change kept, iteration bounds, result near the root.
+E1: lattice designs of bisection (MC_Bisection, IEEE signed zeros), of ITP (MC_Itp: any trial point the projection
+    step admits) and of Brent (MC_Brent: the code's formulas, and ANY interpolated point) are model-checked against the contract:
+    abscissae inside, sign change kept, iteration bounds, result near the root.
+E3 design level: every abscissa of every real brent() run is reproduced bit for bit by module Brent over doubles (Trace_Brent).
 E2: TLC (Gen_C07) enumerates dyadic lattice brackets x root positions x tolerances x sign x solver.
 E3: seeded functions with known root sets (polynomial, exponential, trigonometric, flat near the root, several roots),
     brackets in either order / asymmetric / far from zero, tol 1e-12..1e-2, ITP parameters over and just outside their
     ranges. Every run (abscissae seen by the function, evaluation count, result) is judged by TLC against module Bracket."""
 import math
+import os
 import random
 
 import fncommon
@@ -70,6 +73,23 @@ def seeded(ctx, rng, n):
             n0 = -float(rng.choice([1, 3]))
         cases.append({"solver": solver, "a": fp(a), "b": fp(b), "tol": fp(tol), "n_max": 400, "k1": fp(k1), "k2": fp(k2), "n0": fp(n0),
                       "f": f, "budget": 5000})
+    # an end point whose value is already below the tolerance while the function has a knee: s (exp(x) - c) with small c is
+    # almost flat (-c) on the far side and crosses zero steeply on the scale of its values; the end next to the root is
+    # placed where |f| = theta * tol.  Brent's loop then never runs and what it returns is decided by its exit code alone.
+    for k in range(max(30, n // 12)):
+        solver = ["brent", "brent", "itp", "bisection"][k % 4]
+        c = math.exp(rng.uniform(-3.5, -0.5))
+        sg = rng.choice([1.0, -1.0])
+        tol = 10.0 ** (-rng.uniform(3, 8))
+        root = math.log(c)
+        theta = rng.uniform(0.35, 0.95)
+        near = root + rng.choice([1.0, 1.0, -1.0]) * theta * tol / c
+        far = root - rng.uniform(1.5, 4.0) if near > root else root + rng.uniform(0.5, 2.0)
+        a, b = (far, near) if far < near else (near, far)
+        if solver != "bisection" and rng.random() < 0.5:
+            a, b = b, a
+        cases.append({"solver": solver, "a": fp(a), "b": fp(b), "tol": fp(tol), "n_max": 400, "k1": fp(0.2), "k2": fp(2.0), "n0": fp(1.0),
+                      "f": {"k": "exp", "p": [fp(sg), fp(c)]}, "budget": 5000})
     return cases
 
 
@@ -87,6 +107,16 @@ def judge(ctx, cases):
         r2["evals"] = r["evals"][:3]
         slim.append(r2)
     viols = fncommon.validate(ctx, slim, "Val_C07", "brk", nshards=12)
+    # design level: every abscissa of every real brent() run against module Brent over doubles (drift, not a violation)
+    keys = ("id", "solver", "a", "b", "tol", "evals", "n", "ret", "x")
+    brows = [{k: r[k] for k in keys} for r in rows if r["solver"] == "brent"]
+    ndrift = len(ctx.drift)
+    fncommon.validate(ctx, brows, "Trace_Brent", "brt", nshards=6)
+    ctx.traces -= len(brows)            # counted once, above
+    st = [x for x in ctx.notes.pop("_stat", []) if x and x[0] == "brent_runs_explained"]
+    ctx.notes["brent_runs_validated_against_design"] = ctx.notes.get("brent_runs_validated_against_design", 0) + len(brows)
+    ctx.notes["brent_runs_explained_bit_for_bit"] = ctx.notes.get("brent_runs_explained_bit_for_bit", 0) + sum(x[1] for x in st)
+    ctx.notes["brent_runs_drifted"] = ctx.notes.get("brent_runs_drifted", 0) + (len(ctx.drift) - ndrift)
     for c, r in zip(cases, rows):
         ctx.count_case(brief(c), r["n"] >= 5 and r["ret"] == "ok")
     for c, r in list(zip(cases, rows))[:: max(1, len(cases) // 3)][:3]:
@@ -104,6 +134,16 @@ def run(ctx):
         ctx.add_tlc(m, e1=True)
         m = vlib.tlc("MC_Itp", workers=4, timeout=900, deque=False, xmx="6g")
         ctx.add_tlc(m, e1=True)
+        m = vlib.tlc("MC_Brent", workers=4, timeout=900, deque=False)
+        ctx.add_tlc(m, e1=True)
+        # any interpolated point: lattice of 16 units on every change, of 24 in the thorough tier
+        cfgp = os.path.join(vlib.SPEC, "MC_Brent_any_run.cfg")
+        open(cfgp, "w").write(open(os.path.join(vlib.SPEC, "MC_Brent_any.cfg")).read().replace("W = 24", "W = %d" % (16 if ctx.tier == "quick" else 24)))
+        try:
+            m = vlib.tlc("MC_Brent", cfg="MC_Brent_any_run.cfg", workers=6, timeout=1500, deque=False, xmx="8g")
+        finally:
+            os.remove(cfgp)
+        ctx.add_tlc(m, e1=True)
     except vlib.ToolError:
         raise
     cases = fncommon.gen_tlc(ctx, "Gen_C07", "c07")
@@ -113,7 +153,8 @@ def run(ctx):
     ctx.notes["lattice_cases"] = n
     ctx.rule = ("lattice: 3 solvers x ordered pairs of dyadic ends x root positions x tolerances 2^-4..2^-30 x increasing/decreasing, + "
                 "three-root polynomials; seeded: polynomial / exponential / sine / flat functions with known root sets, either bracket order, "
-                "shifted by up to 1000, tol 1e-12..1e-2, same-sign ends, invalid tolerance / ITP parameters; "
+                "shifted by up to 1000, tol 1e-12..1e-2, same-sign ends, invalid tolerance / ITP parameters, knee functions with an end point "
+                "whose value is already below the tolerance; "
                 "non-trivial = Ok result after >= 5 evaluations")
     ctx.assumptions += ["root sets of the catalogue written in Bracket.tla; ends generated away from roots",
                         "tolerance slack 1e-9 relative + 8 ulp; evaluation bounds: halvings+5 (bisection), +n0 (ITP), (halvings+2)^2+10 (Brent)"]
